@@ -178,7 +178,8 @@ theorem commit_inside_write_phase (store : Store) (ts : List Task) (hf : FreshTa
     let w := (World.init store ts).run sched
     (w.tasks i).mode ≠ .fast → ((w.tasks i).pc = .commitDel ∨ (w.tasks i).pc = .commitSet) → (w.tasks i).held ≠ [] := by
   intro w hm hpc
-  have h := WLp_run store ts hf sched i
+  have h : WLp (w.tasks i) := WLp_run store ts hf sched i
+  generalize w.tasks i = t at hm hpc h ⊢
   rcases hpc with hpc | hpc
   · have := h.locks (by simp [Task.active, hpc]) hm (Or.inr (Or.inl (h.cdel hpc)))
     simpa [Task.held, hpc] using this
